@@ -194,7 +194,10 @@ pub fn pw_cost_of(ver: u32, blob: &[u8]) -> Option<(u64, u32, u32)> {
 
 /// the budget of properties C04/C06/C07
 pub fn within_budget(ver: u32, c: (u64, u32, u32)) -> bool {
-    if ver == 1 || ver == 3 { c.0 <= 10_000 } else { c.0 <= 64 * 1024 * 1024 && c.1 <= 3 && c.2 <= 16 }
+    // the budget bounds memory and passes (k2 / k4) or iterations (k1 / k3); the lane count is not part of it: Argon2's work does not
+    // grow with it, and counts Argon2 cannot use are refused (an earlier version of this filter also skipped lane counts above 16 and
+    // so never offered the counts whose check overflowed inside the argon2 crate - see DESIGN 11.5)
+    if ver == 1 || ver == 3 { c.0 <= 10_000 } else { c.0 <= 64 * 1024 * 1024 && c.1 <= 3 }
 }
 
 /// The identity of a password as PBKW sees it.  k2/k4 (Argon2id) take the password bytes as they are.
